@@ -107,4 +107,47 @@ theorem chain_safe (m : Mode) (res : L → LAst T) (v : T → Bool) (a0 : Ast L)
       obtain ⟨g', hg', rfl⟩ := he
       exact (htop g' hg').2
 
+theorem rewriteL_all_unwrapSafe_leaves (m : Mode) (b : Bool) (cs : List (Entry L))
+    (h : ∀ e ∈ cs, ∃ l, e.2 = .leaf l) : (rewriteL cs).all (unwrapSafe m b) = true := by
+  induction cs with
+  | nil => rfl
+  | cons e rest ih =>
+    obtain ⟨o, a⟩ := e
+    obtain ⟨l, hl⟩ := h (o, a) (by simp)
+    simp only at hl
+    subst hl
+    have ih' := ih (fun e he => h e (List.mem_cons_of_mem _ he))
+    have hu : unwrapSafe m b (o, rewrite (.leaf l : Ast L)) = true := by
+      simp only [rewrite]
+      unfold unwrapSafe
+      split
+      · rename_i heq; cases heq
+      · rfl
+    simp only [rewriteL, List.all_cons, hu, ih', Bool.and_self]
+
+theorem leaves_safe (m : Mode) (b : Bool) (cs : List (Entry L)) (h : ∀ e ∈ cs, ∃ l, e.2 = .leaf l) :
+    safeWith m b (.clause cs) = true := by
+  have h2 : ∀ e ∈ cs, safeWith m b e.2 = true := by
+    intro e he
+    obtain ⟨l, hl⟩ := h e he
+    rw [hl]; simp [safeWith]
+  simp only [safeWith, safeWithL_of m b cs h2, rewriteL_all_unwrapSafe_leaves m b cs h, Bool.and_self]
+
+/-- the tree folded from a juxtaposed marker list of leaves satisfies the side condition of
+    `rewrite_preserves_sem` -/
+theorem marks_safe (m : Mode) (cs : List (Entry L)) (h : ∀ e ∈ cs, ∃ l, e.2 = .leaf l) :
+    safeWith m false (assemble (groups (marksItems cs))) = true := by
+  rw [groups_marks, assemble_marks]
+  match cs, h with
+  | [], _ => exact leaves_safe m false [] (by intro e he; cases he)
+  | [(o, a)], h =>
+    by_cases ho : o = some .mustNot
+    · simp only [ho, if_true]
+      exact leaves_safe m false _ (by simpa [ho] using h)
+    · simp only [ho, if_false]
+      obtain ⟨l, hl⟩ := h (o, a) (by simp)
+      simp only at hl
+      rw [hl]; simp [safeWith]
+  | e1 :: e2 :: rest, h => exact leaves_safe m false _ h
+
 end TantivyModel.Grammar
